@@ -12,8 +12,10 @@ package opl
 import (
 	"bytes"
 	"context"
+	"encoding/binary"
 	"encoding/json"
 	"fmt"
+	"io"
 	"net/http"
 	"net/http/httptest"
 	"os"
@@ -25,6 +27,7 @@ import (
 	"strings"
 	"sync"
 	"sync/atomic"
+	"syscall"
 	"testing"
 	"time"
 
@@ -462,7 +465,69 @@ type parseOut struct {
 	panicV any
 }
 
+// crash journal: a fatal error inside Parse (stack overflow, out of memory, runtime throw) cannot be recovered,
+// so the input about to be parsed is first copied into a shared memory-mapped file that survives the process.
+var c12Journal []byte
+
+const c12JournalSize = 1 << 20
+
+func openJournal(path string) {
+	f, err := os.OpenFile(path, os.O_RDWR|os.O_CREATE|os.O_TRUNC, 0o644)
+	if err != nil {
+		return
+	}
+	defer f.Close()
+	if f.Truncate(c12JournalSize) != nil {
+		return
+	}
+	if m, err := syscall.Mmap(int(f.Fd()), 0, c12JournalSize, syscall.PROT_READ|syscall.PROT_WRITE, syscall.MAP_SHARED); err == nil {
+		c12Journal = m
+	}
+}
+
+func journal(where, s string) {
+	if c12Journal == nil {
+		return
+	}
+	binary.LittleEndian.PutUint32(c12Journal[0:], 0) // entry invalid while it is rewritten
+	w := where
+	if len(w) > 200 {
+		w = w[:200]
+	}
+	in := s
+	if len(in) > c12JournalSize-512 {
+		in = in[:c12JournalSize-512]
+	}
+	binary.LittleEndian.PutUint32(c12Journal[8:], uint32(len(w)))
+	binary.LittleEndian.PutUint32(c12Journal[12:], uint32(len(in)))
+	binary.LittleEndian.PutUint32(c12Journal[16:], uint32(len(s)))
+	copy(c12Journal[32:], w)
+	copy(c12Journal[32+len(w):], in)
+	binary.LittleEndian.PutUint32(c12Journal[0:], 1)
+}
+
+func journalDone() {
+	if c12Journal != nil {
+		binary.LittleEndian.PutUint32(c12Journal[0:], 0)
+	}
+}
+
+// readJournal: the input a dead process was parsing (ok=false: it was not inside Parse)
+func readJournal(path string) (where, input string, full int, ok bool) {
+	b, err := os.ReadFile(path)
+	if err != nil || len(b) < 32 || binary.LittleEndian.Uint32(b[0:]) != 1 {
+		return "", "", 0, false
+	}
+	lw, li := int(binary.LittleEndian.Uint32(b[8:])), int(binary.LittleEndian.Uint32(b[12:]))
+	if 32+lw+li > len(b) {
+		return "", "", 0, false
+	}
+	return string(b[32 : 32+lw]), string(b[32+lw : 32+lw+li]), int(binary.LittleEndian.Uint32(b[16:])), true
+}
+
 func tickedParse(where, s string) (o parseOut) {
+	journal(where, s)
+	defer journalDone()
 	c12CurMu.Lock()
 	c12CurInput, c12CurWhere = s, where
 	c12CurMu.Unlock()
@@ -734,6 +799,7 @@ func startWatchdog(onCap func(where, input string, ticks int64)) {
 }
 
 func c12Shard(t *testing.T, shard, of int, outPath string) {
+	openJournal(outPath + ".journal")
 	rep := &c12Report{Shard: shard, Evals: map[string]int64{}, Vios: map[string]*c12Vio{}, Frontier: map[string]int{}}
 	write := func() {
 		b, _ := json.Marshal(rep)
@@ -794,6 +860,41 @@ func TestC12(t *testing.T) {
 		fmt.Sscanf(sh, "%d/%d", &shard, &of)
 		c12Shard(t, shard, of, os.Getenv("VERIF_C12_OUT"))
 		return
+	}
+	scratch0 := os.Getenv("VERIF_SCRATCH")
+	if os.Getenv("VERIF_C12_MAIN") == "" && os.Getenv("VERIF_REPLAY") == "" && scratch0 != "" {
+		// supervisor: the check proper runs in a child, so that a fatal error inside Parse in THAT process
+		// (the geometric families and the pair families run there) is reported with its input as well
+		exe, err := os.Executable()
+		if err != nil {
+			t.Fatalf("INFRA-ERROR %v", err)
+		}
+		jp := filepath.Join(scratch0, "c12-main.journal")
+		cmd := exec.Command(exe, "-test.run", "^TestC12$", "-test.count", "1", "-test.timeout", "0")
+		cmd.Env = append(os.Environ(), "VERIF_C12_MAIN="+jp)
+		var tailBuf bytes.Buffer
+		cmd.Stdout = io.MultiWriter(os.Stdout, &tailBuf)
+		cmd.Stderr = cmd.Stdout
+		err = cmd.Run()
+		code := 0
+		if ee, ok := err.(*exec.ExitError); ok {
+			code = ee.ExitCode()
+		} else if err != nil {
+			t.Fatalf("INFRA-ERROR %v", err)
+		}
+		if where, input, full, ok := readJournal(jp); ok && code != 0 && code != 1 {
+			run := ev.New("C12", "exploration")
+			run.Violation("process-death-in-parse", fmt.Sprintf("the process died inside Parse (exit status %d) on %d bytes (%s): %s", code, full, where, strconv.QuoteToASCII(clip(input, 300))), map[string]any{"family": where, "input": clip(input, 8192)})
+			run.Finish(map[string]any{"evaluations": 0, "distinct_nontrivial": 0, "rule": "the checking process died; see the violation", "exhaustive": false})
+			return
+		}
+		if code != 0 {
+			os.Exit(code)
+		}
+		return
+	}
+	if jp := os.Getenv("VERIF_C12_MAIN"); jp != "" {
+		openJournal(jp)
 	}
 	run := ev.New("C12", "exploration")
 	onBlocked = func(where, input, state string) {
@@ -925,6 +1026,18 @@ func TestC12(t *testing.T) {
 		if rerr != nil {
 			// the shard died without a report: a crash outside recover (e.g. stack overflow / fatal error) is a finding, but needs its input
 			tail := k.log.String()
+			if where, input, full, ok := readJournal(k.out + ".journal"); ok {
+				why := "fatal error"
+				for _, l := range strings.Split(tail, "\n") {
+					if strings.HasPrefix(l, "fatal error:") || strings.HasPrefix(l, "runtime: goroutine stack exceeds") {
+						why = l
+						break
+					}
+				}
+				total.vio("process-death-in-parse", fmt.Sprintf("the process died inside Parse (%s) on %d bytes: %s", why, full, strconv.QuoteToASCII(clip(input, 300))), where, -1, input)
+				total.Cut = true
+				continue
+			}
 			if len(tail) > 3000 {
 				tail = tail[len(tail)-3000:]
 			}
